@@ -346,7 +346,7 @@ theorem bfs_spec {g : Graph} (wf : g.WF) (hac : g.Acyclic) (hs : g.Simple) :
     simp; omega
   obtain ⟨out, hout, inv⟩ := bfsLoop_depAll wf hs (bfsFuel g) g.getSources [] (BfsInv.init wf) hfuel
   have hbf : g.breadthFirst none = (out, none) := by
-    simpa [breadthFirst] using hout
+    simpa [breadthFirst, breadthFirstWithFuel] using hout
   rw [hbf]
   have hnd : out.Nodup := by simpa using inv.nodup
   refine ⟨rfl, ?_, ?_⟩
